@@ -602,6 +602,11 @@ func c09Classify(s c09SpecCase, got string) string {
 	it := s.It
 	r := s.resolve()
 	if !r.ok {
+		// a `*` argument that is not an int64 (NaN, ±Inf, |x| ≥ 2^63) is converted to the extreme int64 by the
+		// interpreter, i.e. a width/precision whose magnitude exceeds 10^6: the same class as G09-3
+		if strings.HasPrefix(r.skipReason, "star ") && (strings.Contains(got, "%!(BADWIDTH)") || strings.Contains(got, "%!(BADPREC)")) {
+			return "G09-3"
+		}
 		return ""
 	}
 	minus := strings.Contains(it.Flags, "-")
